@@ -37,11 +37,20 @@ DEFAULT_ENV = {
     'def-p': (None, _DP),
     'def-both': (_DD, _DP),
     'def-both-imports': (_DD_DEF, _DP),
+    # a default environment that is DEFINED but has no variables (on one layer or the other)
+    'def-d-empty': ({}, None),
+    'def-p-empty': (None, {}),
+    'def-both-pempty': (_DD, {}),
+    'def-dempty-p': ({}, _DP),
 }
+# the named-environment documents are crossed with these layouts of the default environment (quick / thorough); the documents of the special selections are crossed with every layout in both tiers
+NAMED_LAYOUTS_QUICK = ('nodef', 'def-both-imports')
+NAMED_LAYOUTS_THOROUGH = ('nodef', 'def-d-imports', 'def-p', 'def-both', 'def-both-imports', 'def-p-empty')
 
 # ---- named environments: layer templates
 LAYER_D = {
     'd0': None,
+    'de': {},                                                        # defined, but without variables
     'd1': {'K1': 'd1', 'K2': 'd2'},
     'd2': {'K1': 'd1', 'R1': '$K1/x', 'R2': '${K3}y', 'RL': '${LA}:$LB', 'RU': '$UNDEF1/${UNDEF2}'},
     'd3': {'K1': 'd1', 'DEFAULTS': 'LA:LB'},
@@ -56,6 +65,7 @@ LAYER_D = {
 }
 LAYER_P = {
     'p0': None,
+    'pe': {},                                                        # defined, but without variables
     'p1': {'K2': 'p2', 'K3': 'p3'},
     'p2': {'K1': 'p1', 'R3': '$K2|${K1}'},
     'p3': {'K3': 'p3', 'DEFAULTS': 'LC'},
@@ -171,18 +181,18 @@ def components(thorough):
 
 def groups(thorough):
     """Components are hosted in several documents per configuration (the product's validation cost grows with
-    document size x number of components): one group per default-platform layer template; the special selections
-    travel with the first non-absent template. Returns [(set of lower-case environment names, [components])]."""
+    document size x number of components): one group for the special selections (hosted together with the named
+    environments of the first non-absent, non-empty default-layer template, which nobody in that document selects)
+    and one group per default-platform layer template.
+    Returns [(group kind 'special'|'named', set of lower-case environment names, [components])]."""
     comps = components(thorough)
     ld, lp = layers(thorough)
-    out = []
-    for i, dk in enumerate(ld):
+    company = [dk for dk, dv in ld.items() if dv][0]
+    out = [('special', set(env_name(company, pk) for pk in lp), [c for c in comps if c['kind'] != 'named'])]
+    for dk in ld:
         names = set(env_name(dk, pk) for pk in lp)
-        members = [c for c in comps if c['kind'] == 'named' and c['selection'].lower() in names]
-        if i == 1:
-            members = [c for c in comps if c['kind'] != 'named'] + members
-        out.append((names, members))
-    if sum(len(m) for _, m in out) != len(comps):
+        out.append(('named', names, [c for c in comps if c['kind'] == 'named' and c['selection'].lower() in names]))
+    if sum(len(m) for _, _, m in out) != len(comps):
         raise AssertionError('grouping lost components')
     return out
 
